@@ -62,13 +62,13 @@ Definition mkobj (name : text) (parent : option nat) (contents : list nat) (k : 
            (mro subs : list nat) (bases : list (option nat)) (m : option nat) : obj :=
   {| o_name := name; o_parent := parent; o_contents := contents; o_kind := k; o_priv := p; o_doc := true;
      o_mro := mro; o_subclasses := subs; o_bases := bases; o_docsource := None; o_xrefs := []; o_sum_xrefs := [];
-     o_module := m |}.
+     o_linker_page := None; o_module := m |}.
 
 (* an object whose rendered docstring comes from `src` and cross-references `xr` *)
 Definition with_doc (o : obj) (src : nat) (xr : list nat) : obj :=
   {| o_name := o_name o; o_parent := o_parent o; o_contents := o_contents o; o_kind := o_kind o; o_priv := o_priv o;
      o_doc := o_doc o; o_mro := o_mro o; o_subclasses := o_subclasses o; o_bases := o_bases o;
-     o_docsource := Some src; o_xrefs := xr; o_sum_xrefs := xr; o_module := o_module o |}.
+     o_docsource := Some src; o_xrefs := xr; o_sum_xrefs := xr; o_linker_page := o_linker_page o; o_module := o_module o |}.
 
 (* m.py:  def f(): ...  def f(): ...   -- the first `f` lives on in allobjects as "m.f 0" *)
 Definition w_dup : registry := {|
